@@ -71,14 +71,28 @@ def _upstream() -> Tuple[Dict[str, ast.FunctionDef], str, str]:
 
 
 def _flat(f: ast.FunctionDef) -> List[Tuple[str, ast.AST]]:
-    """Pre-order list of statement headers (compound statements contribute their header, then their blocks)."""
+    """Pre-order list of statement headers (compound statements contribute their header, then their blocks).
+    Local variables are replaced by the wildcard `_L` so that renaming a local is not a difference."""
     out: List[Tuple[str, ast.AST]] = []
+    a = f.args
+    pnames = {x.arg for x in a.posonlyargs + a.args + a.kwonlyargs} | ({a.vararg.arg} if a.vararg else set()) | ({a.kwarg.arg} if a.kwarg else set())
+    locs = {n.id for n in ast.walk(f) if isinstance(n, ast.Name) and isinstance(n.ctx, ast.Store)} - pnames
+    for h in ast.walk(f):
+        if isinstance(h, ast.ExceptHandler) and h.name:
+            locs.add(h.name)
+
+    def nz(node: ast.AST) -> str:
+        c = copy.deepcopy(node)
+        for n in ast.walk(c):
+            if isinstance(n, ast.Name) and n.id in locs:
+                n.id = "_L"
+        return norm(c)
 
     def hdr(st: ast.stmt) -> None:
         if isinstance(st, ast.Expr) and isinstance(st.value, ast.Constant) and isinstance(st.value.value, str):
             return  # docstring
         if isinstance(st, ast.If):
-            out.append((f"if {norm(st.test)}", st))
+            out.append((f"if {nz(st.test)}", st))
             for s in st.body:
                 hdr(s)
             if st.orelse:
@@ -86,7 +100,7 @@ def _flat(f: ast.FunctionDef) -> List[Tuple[str, ast.AST]]:
                 for s in st.orelse:
                     hdr(s)
         elif isinstance(st, ast.With):
-            out.append(("with " + ", ".join(norm(i.context_expr) for i in st.items), st))
+            out.append(("with " + ", ".join(nz(i.context_expr) for i in st.items), st))
             for s in st.body:
                 hdr(s)
         elif isinstance(st, ast.Try):
@@ -94,13 +108,13 @@ def _flat(f: ast.FunctionDef) -> List[Tuple[str, ast.AST]]:
             for s in st.body:
                 hdr(s)
             for h in st.handlers:
-                out.append((f"except {norm(h.type) if h.type else ''} as {h.name}", h))
+                out.append((f"except {norm(h.type) if h.type else ''} as _L", h))
                 for s in h.body:
                     hdr(s)
             for s in st.finalbody:
                 hdr(s)
         else:
-            out.append((norm(st), st))
+            out.append((nz(st), st))
 
     for s in f.body:
         hdr(s)
@@ -108,23 +122,22 @@ def _flat(f: ast.FunctionDef) -> List[Tuple[str, ast.AST]]:
 
 
 def _explained(kind: str, ups: List[str], ours: List[str]) -> Optional[str]:
-    u, o = " ; ".join(ups), " ; ".join(ours)
     if kind == "compile_nodelist":
-        if ours == ["tokens = parse_template(self.source)"] and all("lexer" in x or x in ("else", "if self.engine.debug") for x in ups) and any(x == "tokens = lexer.tokenize()" for x in ups):
+        if ours == ["_L = parse_template(self.source)"] and all(x in ("else", "if self.engine.debug", "_L = DebugLexer(self.source)", "_L = Lexer(self.source)", "_L = _L.tokenize()") for x in ups) and "_L = _L.tokenize()" in ups:
             return "lexer selection replaced by parse_template(self.source)"
-        if ups == ["self.extra_data = parser.extra_data"] and ours == ["self.extra_data = getattr(parser, 'extra_data', {})"]:
+        if ups == ["self.extra_data = _L.extra_data"] and ours == ["self.extra_data = getattr(_L, 'extra_data', {})"]:
             return "tolerant getattr for Django < 5.1"
-        if not ups and ours == ["self.extra_data = getattr(parser, 'extra_data', {})"]:
+        if not ups and ours == ["self.extra_data = getattr(_L, 'extra_data', {})"]:
             return "extra_data added for Django >= 5.1 compatibility"
     if kind == "render":
-        if not ups and ours and ours[0].startswith("if not hasattr(self, '_djc_is_component_nested')") and all(x in ("else",) or x.startswith("isolated_context = ") or x.startswith("if not hasattr") for x in ours):
+        flag = ("if not hasattr(self, '_djc_is_component_nested')", "else", "_L = True", "_L = not self._djc_is_component_nested")
+        if not ups and ours and all(x in flag for x in ours) and ours[0] == flag[0]:
             return "computation of isolated_context from the component-nesting flag"
-        if ups == ["with context.render_context.push_state(self)"] and ours == ["with context.render_context.push_state(self, isolated_context=isolated_context)"]:
+        if ups == ["with context.render_context.push_state(self)"] and ours == ["with context.render_context.push_state(self, isolated_context=_L)"]:
             return "push_state parametrised with isolated_context"
         if ups == ["return self._render(context)"] and ours == ["return self._render(context, *args, **kwargs)"]:
             return "argument pass-through"
-        # combined blocks
-        if ups and ours and ups[-1] == "with context.render_context.push_state(self)" and ours[-1] == "with context.render_context.push_state(self, isolated_context=isolated_context)":
+        if ups and ours and ups[-1] == "with context.render_context.push_state(self)" and ours[-1] == "with context.render_context.push_state(self, isolated_context=_L)":
             return _explained(kind, ups[:-1], ours[:-1]) if (ups[:-1] or ours[:-1]) else "push_state parametrised"
     return None
 
@@ -174,7 +187,9 @@ def s2(chk: Check, proj: Project) -> None:
     chk.rule("S2", "isolated_context is True whenever the template has no `_djc_is_component_nested`; the flag is stored only on templates the library owns")
     m = proj.mod("util.django_monkeypatch")
     f = m.func("monkeypatch_template_render._template_render")
-    a = assignments(f, "isolated_context")
+    ps_ = [c for c in calls(f, "push_state")]
+    icv = norm(kwarg(ps_[0], "isolated_context")) if ps_ and kwarg(ps_[0], "isolated_context") is not None else "isolated_context"
+    a = assignments(f, icv)
     ok = False
     for s, v in a:
         at = cond_atoms(s)
